@@ -21,13 +21,15 @@ RTOL_RDM = 1e-5
 
 def cfg(mode, *, nconds, grid='GridA', catalogue='CatAll', offs='OffsNeg', nparts='{1,2,3}', nsims='{1,2,3}',
         keepmod=1, salt=0, emit=True):
-    lines = ['CONSTANTS', '  Dim = 4', f'  NConds = {nconds}', f'  Grid <- {grid}', f'  Catalogue <- {catalogue}',
+    lines = ['CONSTANTS', '  Dim = 4', f'  NConds {"=" if nconds.startswith("{") else "<-"} {nconds}', f'  Grid <- {grid}', f'  Catalogue <- {catalogue}',
              f'  Mode = "{mode}"', f'  ChanOffsets <- {offs}', f'  NParts = {nparts}', f'  NSims = {nsims}',
              '  Signals <- Sig3', '  NoiseRoots <- Roots', f'  KeepMod = {keepmod}', f'  Salt = {salt}',
              'INIT Init', 'NEXT Next']
     lines += [f'INVARIANT {i}' for i in ('DesignOk', 'GramOk', 'SignalOk', 'Contract', 'SameSignal', 'DrawCount',
                                          'NoiseRelation')]
-    if emit:
+    if mode == 'design':
+        lines = [x for x in lines if not x.startswith('INVARIANT')] + ['INVARIANT DesignSweepOk', 'INVARIANT EmitDesign']
+    elif emit:
         lines.append('INVARIANT Emit')
     lines.append('CHECK_DEADLOCK FALSE')
     return '\n'.join(lines) + '\n'
@@ -163,6 +165,10 @@ def check_case(rec, seed, variant=0, consistency=True):
     labels = np.asarray(rec['labels'])
     if rec['order'] == 1 and rec['lab'] == 0:
         cond_in = np.asarray(cond_vec)                      # straight from make_design (float vector)
+    elif rec['lab'] == 2:
+        cond_in = labels.astype(float) / rec.get('labden', 8)        # fractional labels 0.125, 0.25, ...
+    elif rec['lab'] == 3:
+        cond_in = np.array([chr(96 + int(v)) for v in labels])        # string labels 'a', 'b', ...
     else:
         cond_in = labels.astype(float) if variant % 2 else labels.astype(int)
     Z = np.asarray(rec['Z'], dtype=float)
@@ -204,7 +210,9 @@ def check_case(rec, seed, variant=0, consistency=True):
             bad.append(('c/shape', 'measurements are not n_obs x n_channel', {**case, 'shape': list(m.shape)}))
             return bad, unsup, nev, {}
         cv = ds.obs_descriptors.get('cond_vec')
-        if cv is None or not np.array_equal(np.asarray(cv), np.asarray(arg)):
+        # element-wise, type-insensitive (1 == 1.0), shape-sensitive
+        if cv is None or np.asarray(cv).shape != np.asarray(arg).shape or \
+                not all(a == b for a, b in zip(np.asarray(cv).ravel().tolist(), np.asarray(arg).ravel().tolist())):
             bad.append(('c/obs_descriptor/cond_vec', "dataset does not carry the condition vector / design matrix it "
                         "was simulated with as obs_descriptors['cond_vec']",
                         {**case, 'sim': k, 'got': None if cv is None else np.asarray(cv).tolist()}))
@@ -251,6 +259,11 @@ def check_case(rec, seed, variant=0, consistency=True):
                 bad.append((f'a/calc_rdm/raises/{type(e).__name__}', f'calc_rdm on the simulated dataset raises {e!r}', case))
                 break
             nev += 1
+            if np.asarray(got).shape != expect.shape:
+                bad.append(('a/rdm/n-conditions', 'the by-condition RDM of the simulated dataset does not have one entry '
+                            'per pair of the conditions it was simulated with',
+                            {**case, 'sim': k, 'n_pairs_expected': int(len(expect)), 'n_pairs_got': int(np.asarray(got).size)}))
+                break
             err = float(np.max(np.abs(got - expect))) if len(expect) else 0.0
             rel = err / scale if scale > 0 else err
             info['err'] = max(info['err'], rel if rec['cls'] != 'early-dependent' else 0.0)
@@ -344,6 +357,26 @@ def check_case(rec, seed, variant=0, consistency=True):
             except Exception as e:
                 bad.append((f'e/make_dataset/raises/{type(e).__name__}', f'make_dataset with noise covariance raises {e!r}', case))
     return bad, unsup, nev, info
+
+
+def check_design(rec):
+    """make_design(n_cond, n_part) against MakeDesign of the specification (emitted by TLC) AND against the
+    closed form cond[o] = o mod n_cond, part[o] = o div n_cond, exactly."""
+    from rsatoolbox.simulation import make_design
+    n, n_part = rec['n'], rec['nPart']
+    cond_vec, part_vec = make_design(n, n_part)
+    c, p = np.asarray(cond_vec).tolist(), np.asarray(part_vec).tolist()
+    o = np.arange(n * n_part)
+    closed = ((o % n).tolist(), (o // n).tolist())
+    if (rec['cond'], rec['part']) != closed:
+        raise AssertionError('MakeDesign of the specification differs from the closed form')
+    if len(c) != n * n_part or len(p) != n * n_part or any(a != b for a, b in zip(c, closed[0])) \
+            or any(a != b for a, b in zip(p, closed[1])):
+        firsts = [i for i, (a, b) in enumerate(zip(p, closed[1])) if a != b][:5]
+        return [('b/make_design', 'design vectors do not list every condition exactly once per partition as '
+                 'MakeDesign(n_cond, n_part)', {'n_cond': n, 'n_part': n_part, 'first_wrong_partition_positions': firsts,
+                                                'cond_ok': c == [float(x) for x in closed[0]]})]
+    return []
 
 
 def float_noise_case(seed):
